@@ -121,8 +121,9 @@ UpsertStep(acc, b, p, r, x, failAt) ==
           ELSE LET rootHash == IF lr = NoRoot THEN Z(H) ELSE lr.root
                    sib == GetSiblings(acc.und, r - 1, rootHash)
                    c   == UClimb(Leaf(x), r - 1, sib)
-               IN IF Stmt(acc, failAt) \/ (\E q \in acc.ur : q.root = c.root)    \* root table PRIMARY KEY (hash): F5
-                  THEN [acc EXCEPT !.ok = FALSE, !.stmt = @ + 1]
+               IN IF Stmt(acc, failAt) THEN [acc EXCEPT !.ok = FALSE, !.stmt = @ + 1]
+                  ELSE IF \E q \in acc.ur : q.root = c.root                     \* root table PRIMARY KEY (hash): finding F5
+                  THEN [acc EXCEPT !.ok = FALSE, !.stmt = @ + 1, !.f5 = TRUE]
                   ELSE RowStep([acc EXCEPT !.ur = @ \cup {[idx |-> r - 1, root |-> c.root, b |-> b, p |-> p]},
                                            !.und = @ \cup c.nodes, !.stmt = @ + 1],
                                [t |-> "verify", r |-> r, x |-> x, rer |-> c.root, p |-> p], failAt)
@@ -150,7 +151,7 @@ Run(acc, b, evs, p, failAt) ==
 (* number of storage statements of a fault-free run of the block: used to enumerate fault points *)
 NStmts(b, evs) ==
   LET a0 == [ok |-> TRUE, ar |-> aroots, nd |-> rht, ur |-> uroots, und |-> urht, m |-> mem, cbs |-> 0, out |-> <<>>,
-             stmt |-> 1, halt |-> FALSE]
+             stmt |-> 1, halt |-> FALSE, f5 |-> FALSE]
   IN Run(a0, b, evs, 0, 0).stmt
 
 Rollback(m, cbs) == IF cbs = 0 THEN m
@@ -166,7 +167,7 @@ Process(b, evs, f) ==
      ELSE
        LET failAt == IF f.kind \in {"stmt", "ctx"} THEN f.at ELSE 0
            a0 == [ok |-> (failAt # 1), ar |-> aroots, nd |-> rht, ur |-> uroots, und |-> urht, m |-> mem, cbs |-> 0,
-                  out |-> <<>>, stmt |-> 1, halt |-> FALSE]                \* statement 1 = INSERT INTO block
+                  out |-> <<>>, stmt |-> 1, halt |-> FALSE, f5 |-> FALSE]  \* statement 1 = INSERT INTO block
            a  == Run(a0, b, evs, 0, failAt)
        IN IF a.ok /\ f.kind # "commit"
           THEN /\ blk' = Append(blk, [num |-> b, evs |-> a.out])
@@ -177,7 +178,9 @@ Process(b, evs, f) ==
                \* context: Rollback() = ErrTxDone -> no callback runs.
                /\ mem' = LET m1 == IF f.kind \in {"commit", "ctx"} THEN a.m ELSE Rollback(a.m, a.cbs)
                          IN [m1 EXCEPT !.halted = a.halt]
-               /\ lastRes' = IF a.halt THEN "inconsistent" ELSE "error"
+               /\ lastRes' = IF a.halt THEN "inconsistent"
+                             ELSE IF a.f5 THEN "errorF5"                 \* known finding F5: the block can never be stored
+                             ELSE IF f.kind = "none" THEN "errorNoFault" ELSE "error"
 
 Reorg(b) ==
   /\ nops < MaxOps
@@ -205,21 +208,21 @@ DepositCount == Len(LeavesOf(blk))
 
 (* event shapes; leaf atoms are assigned fresh, in order *)
 Shapes == IF Kind = "bridge"
-          THEN {"leaf", "other"} \cup (IF AllowGap THEN {"gap"} ELSE {})
-          ELSE {"leaf", "v2good", "v2bad"} \cup {<<"verify", r, x>> : r \in Rollups, x \in ExitRoots}
+          THEN {<<"leaf">>, <<"other">>} \cup (IF AllowGap THEN {<<"gap">>} ELSE {})
+          ELSE {<<"leaf">>, <<"v2good">>, <<"v2bad">>} \cup {<<"verify", r, x>> : r \in Rollups, x \in ExitRoots}
 
 RECURSIVE Concrete(_, _, _)
 Concrete(shapes, nl, dc) ==   \* turn a sequence of shapes into events with fresh leaf atoms / deposit counts
   IF shapes = <<>> THEN <<>>
-  ELSE LET s == Head(shapes) IN
+  ELSE LET s == Head(shapes)[1] IN
        IF s = "leaf" THEN <<[t |-> "leaf", x |-> nl, dc |-> dc]>> \o Concrete(Tail(shapes), nl + 1, dc + 1)
        ELSE IF s = "gap" THEN <<[t |-> "leaf", x |-> nl, dc |-> dc + 1]>> \o Concrete(Tail(shapes), nl + 1, dc + 2)
        ELSE IF s = "other" THEN <<[t |-> "other"]>> \o Concrete(Tail(shapes), nl, dc)
        ELSE IF s = "v2good" THEN <<[t |-> "v2", good |-> TRUE]>> \o Concrete(Tail(shapes), nl, dc)
        ELSE IF s = "v2bad" THEN <<[t |-> "v2", good |-> FALSE]>> \o Concrete(Tail(shapes), nl, dc)
-       ELSE <<[t |-> "verify", r |-> s[2], x |-> s[3]]>> \o Concrete(Tail(shapes), nl, dc)
+       ELSE <<[t |-> "verify", r |-> Head(shapes)[2], x |-> Head(shapes)[3]]>> \o Concrete(Tail(shapes), nl, dc)
 
-NLeaves(shapes) == Cardinality({i \in DOMAIN shapes : shapes[i] \in {"leaf", "gap"}})
+NLeaves(shapes) == Cardinality({i \in DOMAIN shapes : shapes[i][1] \in {"leaf", "gap"}})
 
 ShapeSeqs == UNION {[1..n -> Shapes] : n \in 0..MaxEvents}
 
@@ -231,10 +234,10 @@ DoProcess ==
     \* whose frontier index is in sync with the DB.  (After a failed commit / cancelled context lastIndex is ahead of
     \* the DB until the next AddLeaf; a gap that happens to match it would be accepted silently - detection completeness
     \* is not claimed by any listed property; recorded as information in DESIGN.md section 6.)
-    /\ (\E i \in DOMAIN ss : ss[i] = "gap") => mem.lastIndex \in {-2, DepositCount - 1}
+    /\ (\E i \in DOMAIN ss : ss[i][1] = "gap") => mem.lastIndex \in {-2, DepositCount - 1}
     \* a V2 announcement only makes sense after a leaf exists (the contract emits it after UpdateL1InfoTree)
-    /\ \A i \in DOMAIN ss : ss[i] \in {"v2good", "v2bad"} =>
-          (aroots # {} \/ \E j \in 1..(i - 1) : ss[j] = "leaf")
+    /\ \A i \in DOMAIN ss : ss[i][1] \in {"v2good", "v2bad"} =>
+          (aroots # {} \/ \E j \in 1..(i - 1) : ss[j][1] = "leaf")
     /\ LET b   == LastBlock + 1
            evs == Concrete(ss, nextLeaf, DepositCount)
            n   == NStmts(b, evs)
@@ -302,7 +305,11 @@ UProofsVerify ==
    by a row-deleting reorg or lost with the process *)
 HaltedStops == [][mem.halted /\ mem'.halted => blk' = blk \/ Len(blk') < Len(blk)]_vars
 
-Inv == RootsMirror /\ ConsecutiveIdx /\ BlocksIncrease /\ ProofsVerify
+(* a fault-free ProcessBlock of a consistent block succeeds (otherwise the history is not mirrored: C11/C07).
+   "errorF5" is the known finding F5 (DESIGN.md 3.6: narrow, named excuse; TLC reports how often it is reached). *)
+FaultFreeSucceeds == lastRes # "errorNoFault"
+
+Inv == RootsMirror /\ FaultFreeSucceeds /\ ConsecutiveIdx /\ BlocksIncrease /\ ProofsVerify
 InvL1 == Inv /\ RollupTreeMirror /\ UProofsVerify
 
 -----------------------------------------------------------------------------
